@@ -93,7 +93,3 @@ Definition agree_C18K (c : kygcase) : N :=
       else 0
   end%N.
 
-(* the cases of C18: block-level BDL texts and KyGananciasSolares.txt files *)
-Inductive c18any := CBdl (c : c18case) | CKyg (c : kygcase).
-Definition agree_C18any (c : c18any) : N :=
-  match c with CBdl x => agree_C18 x | CKyg x => agree_C18K x end.
